@@ -85,6 +85,11 @@ func checkLex(src string) string {
 			if g.Value != w.Value {
 				return fmt.Sprintf("token %d (%q) value: scanner %q, reference %q", i, src[w.Start:w.End], g.Value, w.Value)
 			}
+			if w.Kind == reftok.String {
+				if m := checkNonNumberAccessors(g.Kind, g.Value); m != "" {
+					return fmt.Sprintf("token %d (%q): %s", i, src[w.Start:w.End], m)
+				}
+			}
 		case reftok.Number:
 			if !decimalRE.MatchString(g.Value) {
 				return fmt.Sprintf("token %d (%q): value %q is not a decimal spelling", i, src[w.Start:w.End], g.Value)
@@ -140,6 +145,19 @@ var maxU64 = new(big.Rat).SetInt(new(big.Int).SetUint64(math.MaxUint64))
 
 // checkAccessors: the numeric accessors of a literal built from a number
 // token agree with the spelling (exact value `num`) whenever representable.
+// checkNonNumberAccessors: the numeric accessors of a literal that is not a
+// number are documented to be false / 0, whatever its text looks like.
+func checkNonNumberAccessors(kind parser.TokenKind, value string) string {
+	lit := &parser.BasicLit{Kind: kind, Value: value}
+	if lit.IsInteger() || lit.IsFloat() {
+		return fmt.Sprintf("a %v literal %q reports IsInteger=%v IsFloat=%v", kind, value, lit.IsInteger(), lit.IsFloat())
+	}
+	if f, u := lit.Float64(), lit.Uint64(); f != 0 || u != 0 {
+		return fmt.Sprintf("a %v literal %q reports Float64()=%v Uint64()=%d, documented: 0 for a literal that is not a number", kind, value, f, u)
+	}
+	return ""
+}
+
 func checkAccessors(value string, num *big.Rat) string {
 	lit := &parser.BasicLit{Kind: parser.TokenNumber, Value: value}
 	if lit.IsInteger() == lit.IsFloat() {
@@ -236,6 +254,8 @@ var lexPieces = []string{
 	"'\\u0041'", "\"\\u0027\"", "0.5.5", "0..5", "00.1.2",
 	"\xa0", "\x85", " \xa0", "\n\x85", "\ufeff", "00e5", "000e-3", "00E0", "0.0e5", "00.5e1", "0e5",
 	"1e0002147483647", "1e-0002147483647", "1e00000000309", "1e000000", "2e+0000000000000000001",
+	"'12.5'", "\"1e3\"", "'7'", "'0x10'", "\"Infinity\"", "'NaN'", "'-0'",
+	"// c\u2028d\n", "// c\u0085| count\n", "//\u2029x", "// \r x\n",
 	"\ufffd", "\ufffc", "\ufffe", "a\ufffd", " \ufffd ", "\u2028", "\u2029", "\u0085", "\u3000", "\u200b", "\u00ad", "\xc0\xaf", "\xed\xa0\x80", "\xf4\x90\x80\x80", "e\u0301", "'e\u0301'", "`\u2028`",
 	"2147483647", "2147483648", "4294967295", "4294967296", "9223372036854775807", "9223372036854775808", "0x7fffffffffffffff", "0x8000000000000000", "0xffffffff", "1e308", "1e309", "4.9e-324",
 	"/*", "*/", "/* c */", "/* c;\n d */", "AND", "Or", "IN", "By", "aNd",
@@ -243,7 +263,21 @@ var lexPieces = []string{
 	"\u0663", "\uff15", "\u00b2", "\u2167", "\u0967", "\u4e00",
 }
 
+// bulkString: one short unit repeated hundreds or thousands of times (more
+// errors, tokens or statements than any small counter or buffer holds), with
+// ordinary statements around it.
+func bulkString(t *rapid.T) string {
+	unit := rapid.SampledFrom([]string{"#", "#?@^&~{}", "\xff", "!", "'", "a ", "1;", "; ", "x;y;", "\\", "@ ;", "`", "// c\n", "0x "}).Draw(t, "bulkunit")
+	n := rapid.SampledFrom([]int{255, 256, 257, 999, 1000, 1001, 1500, 4095, 4096, 4097}).Draw(t, "bulkn")
+	pre := rapid.SampledFrom([]string{"", "T | count; ", "let x = 1;\n"}).Draw(t, "bulkpre")
+	post := rapid.SampledFrom([]string{"", "; T | count; U | take 1;", "\n;U", ";"}).Draw(t, "bulkpost")
+	return pre + strings.Repeat(unit, n) + post
+}
+
 func genLexString(t *rapid.T) string {
+	if rapid.IntRange(0, 149).Draw(t, "bulk") == 0 {
+		return bulkString(t)
+	}
 	n := rapid.IntRange(1, 12).Draw(t, "pieces")
 	var sb strings.Builder
 	for i := 0; i < n && sb.Len() < 64; i++ {
